@@ -1,5 +1,7 @@
 mod distributor;
 mod poller;
+#[cfg(datacake_verif)]
+pub(crate) use poller::verif as poller_verif;
 
 pub const MAX_CONCURRENT_REQUESTS: usize = 10;
 
